@@ -332,6 +332,9 @@ func (in *Interp) RunPath(unit string, fn *ssa.Function, prefix []Decision) (res
 				res.End, res.Msg = x.reason, x.msg
 			case goPanic:
 				res.End, res.Msg = "panic", showValue(x.v)
+				// a Go panic that escapes the harness is a crash of the code under test
+				res.Violations = append(res.Violations, Violation{Unit: in.unit, AssertID: "no-uncaught-panic", Msg: res.Msg,
+					Nondet: in.safeModelValues(), Decs: append([]Decision(nil), in.taken...)})
 			case engineError:
 				res.End, res.Msg = "engine", x.msg
 			default:
@@ -350,6 +353,15 @@ func (in *Interp) RunPath(unit string, fn *ssa.Function, prefix []Decision) (res
 	}()
 	in.sched.runMain(func() { in.call(fn, nil, nil, nil) })
 	return
+}
+
+func (in *Interp) safeModelValues() (nv []NondetValue) {
+	defer func() {
+		if recover() != nil {
+			nv = nil
+		}
+	}()
+	return in.modelValues()
 }
 
 func (in *Interp) incomplete(msg string) {
@@ -979,6 +991,17 @@ func (in *Interp) binop(op token.Token, xt types.Type, a, b Value, yt types.Type
 		return in.equal(xt, a, b)
 	case token.NEQ:
 		return ts.Not(in.equal(xt, a, b))
+	}
+	// mixed concrete / symbolic floats
+	if _, ok := a.(float64); ok {
+		if yt, ok := b.(*Term); ok && yt.Sort.K == SFP64 {
+			return in.fpBinop(op, toFP(in, a), yt)
+		}
+	}
+	if xt, ok := a.(*Term); ok && xt.Sort.K == SFP64 {
+		if _, ok := b.(float64); ok {
+			return in.fpBinop(op, xt, toFP(in, b))
+		}
 	}
 	switch x := a.(type) {
 	case *Term:
